@@ -17,6 +17,60 @@ pub unsafe fn patch_ast(compilation_state: &mut CompilationState) {
     // TODO why explain we split this logic so that we can for sure have an immutable AST.
     patcher.compute_patches(&compilation_state.ast);
     patcher.apply_patches(&mut compilation_state.ast);
+
+    // Now that every type reference is patched, make sure no type alias ended up aliasing a type that contains itself.
+    check_for_self_containing_type_aliases(&compilation_state.ast, &mut compilation_state.diagnostics);
+}
+
+/// Reports an error for every type alias whose underlying (anonymous) type contains itself: `typealias A = Sequence<A>`.
+///
+/// Type aliases are erased while patching, so such an alias leaves behind a sequence, dictionary, or result type which
+/// is its own element type. No concrete type can be given to it, and anything that later walks through the type's
+/// nested types would never terminate, so this must be caught (and compilation stopped) right after patching.
+fn check_for_self_containing_type_aliases(ast: &Ast, diagnostics: &mut Diagnostics) {
+    // Returns true if walking through the anonymous types nested in `type_ref` leads back to a type we're already in.
+    fn contains_itself(type_ref: &TypeRef, enclosing_types: &mut Vec<*const ()>) -> bool {
+        // If this reference couldn't be patched, an error was already reported for it, and there's nothing to check.
+        if matches!(&type_ref.definition, TypeRefDefinition::Unpatched(_)) {
+            return false;
+        }
+
+        let (address, nested_type_refs) = match type_ref.concrete_type() {
+            Types::Sequence(sequence) => (sequence as *const Sequence as *const (), vec![&sequence.element_type]),
+            Types::Dictionary(dictionary) => (
+                dictionary as *const Dictionary as *const (),
+                vec![&dictionary.key_type, &dictionary.value_type],
+            ),
+            Types::ResultType(result) => (
+                result as *const ResultType as *const (),
+                vec![&result.success_type, &result.failure_type],
+            ),
+            // Named types and primitives end the walk; cycles through structs and enums are checked during validation.
+            _ => return false,
+        };
+
+        if enclosing_types.contains(&address) {
+            return true;
+        }
+        enclosing_types.push(address);
+        let result = nested_type_refs.into_iter().any(|nested| contains_itself(nested, enclosing_types));
+        enclosing_types.pop();
+        result
+    }
+
+    for node in ast.as_slice() {
+        let Node::TypeAlias(type_alias_ptr) = node else { continue };
+        let type_alias = type_alias_ptr.borrow();
+
+        if contains_itself(&type_alias.underlying, &mut Vec::new()) {
+            Diagnostic::new(Error::SelfReferentialTypeAliasNeedsConcreteType {
+                identifier: type_alias.module_scoped_identifier(),
+            })
+            .set_span(type_alias.span())
+            .add_note("the type being aliased contains itself, so it has no concrete type", None)
+            .push_into(diagnostics);
+        }
+    }
 }
 
 struct TypeRefPatcher<'a> {
